@@ -22,6 +22,12 @@ Encoder.vos Encoder.vok Encoder.required_vos: Encoder.v Base.vos Fields.vos SrcF
 DecoderSafety.vo DecoderSafety.glob DecoderSafety.v.beautified DecoderSafety.required_vo: DecoderSafety.v Base.vo Fields.vo SrcFacts.vo Msg.vo Decoder.vo
 DecoderSafety.vio: DecoderSafety.v Base.vio Fields.vio SrcFacts.vio Msg.vio Decoder.vio
 DecoderSafety.vos DecoderSafety.vok DecoderSafety.required_vos: DecoderSafety.v Base.vos Fields.vos SrcFacts.vos Msg.vos Decoder.vos
+WireSpec.vo WireSpec.glob WireSpec.v.beautified WireSpec.required_vo: WireSpec.v Base.vo Fields.vo SrcFacts.vo Msg.vo
+WireSpec.vio: WireSpec.v Base.vio Fields.vio SrcFacts.vio Msg.vio
+WireSpec.vos WireSpec.vok WireSpec.required_vos: WireSpec.v Base.vos Fields.vos SrcFacts.vos Msg.vos
+DecoderComplete.vo DecoderComplete.glob DecoderComplete.v.beautified DecoderComplete.required_vo: DecoderComplete.v Base.vo Fields.vo SrcFacts.vo Msg.vo Decoder.vo WireSpec.vo DecoderSafety.vo
+DecoderComplete.vio: DecoderComplete.v Base.vio Fields.vio SrcFacts.vio Msg.vio Decoder.vio WireSpec.vio DecoderSafety.vio
+DecoderComplete.vos DecoderComplete.vok DecoderComplete.required_vos: DecoderComplete.v Base.vos Fields.vos SrcFacts.vos Msg.vos Decoder.vos WireSpec.vos DecoderSafety.vos
 Cache.vo Cache.glob Cache.v.beautified Cache.required_vo: Cache.v Base.vo Fields.vo SrcFacts.vo Msg.vo SrcDecisions.vo
 Cache.vio: Cache.v Base.vio Fields.vio SrcFacts.vio Msg.vio SrcDecisions.vio
 Cache.vos Cache.vok Cache.required_vos: Cache.v Base.vos Fields.vos SrcFacts.vos Msg.vos SrcDecisions.vos
@@ -46,6 +52,6 @@ Properties_C03.vos Properties_C03.vok Properties_C03.required_vos: Properties_C0
 Properties_C01.vo Properties_C01.glob Properties_C01.v.beautified Properties_C01.required_vo: Properties_C01.v Base.vo Fields.vo SrcFacts.vo Msg.vo Decoder.vo Encoder.vo
 Properties_C01.vio: Properties_C01.v Base.vio Fields.vio SrcFacts.vio Msg.vio Decoder.vio Encoder.vio
 Properties_C01.vos Properties_C01.vok Properties_C01.required_vos: Properties_C01.v Base.vos Fields.vos SrcFacts.vos Msg.vos Decoder.vos Encoder.vos
-Properties_C02.vo Properties_C02.glob Properties_C02.v.beautified Properties_C02.required_vo: Properties_C02.v Base.vo Fields.vo SrcFacts.vo Msg.vo Decoder.vo Encoder.vo
-Properties_C02.vio: Properties_C02.v Base.vio Fields.vio SrcFacts.vio Msg.vio Decoder.vio Encoder.vio
-Properties_C02.vos Properties_C02.vok Properties_C02.required_vos: Properties_C02.v Base.vos Fields.vos SrcFacts.vos Msg.vos Decoder.vos Encoder.vos
+Properties_C02.vo Properties_C02.glob Properties_C02.v.beautified Properties_C02.required_vo: Properties_C02.v Base.vo Fields.vo SrcFacts.vo Msg.vo Decoder.vo WireSpec.vo DecoderSafety.vo DecoderComplete.vo
+Properties_C02.vio: Properties_C02.v Base.vio Fields.vio SrcFacts.vio Msg.vio Decoder.vio WireSpec.vio DecoderSafety.vio DecoderComplete.vio
+Properties_C02.vos Properties_C02.vok Properties_C02.required_vos: Properties_C02.v Base.vos Fields.vos SrcFacts.vos Msg.vos Decoder.vos WireSpec.vos DecoderSafety.vos DecoderComplete.vos
